@@ -52,6 +52,17 @@ func Apply(x *bk.Exec, s Sym, wk bk.WriterKind) {
 		x.Connect(s.Op, s.Key, wk, false)
 	case "io":
 		x.Connect("io", "", wk, s.Arg == "outfirst")
+	case "ioprep":
+		x.Pending = append(x.Pending, x.Prepare("io", "", wk))
+	case "ioadmit":
+		// admit one parked half (Arg: input|output) of the oldest prepared /io attempt that still has it parked
+		for _, a := range x.Pending {
+			if a.Gated("admit", s.Arg) {
+				x.Admit(a, s.Arg)
+				x.AwaitReturnIfAllRefused(a)
+				break
+			}
+		}
 	case "endin":
 		if in != nil && in.State == bk.StLive {
 			how := s.Arg
@@ -112,6 +123,14 @@ func RunHistory(hist []Sym, ochCap int, wk bk.WriterKind, viol func(key, what st
 	for _, s := range hist {
 		Apply(x, s, wk)
 	}
+	for _, a := range x.Pending {
+		for _, d := range a.Dirs() {
+			if a.Gated("admit", d) && !x.Stalled {
+				x.Admit(a, d)
+			}
+		}
+		x.AwaitReturnIfAllRefused(a)
+	}
 	x.Probe()
 	// release whatever is still held so that the world can be closed, then final checks
 	for _, st := range x.Streams {
@@ -152,7 +171,16 @@ func genHistory(rng *rand.Rand) []Sym {
 		case v < 18:
 			h = append(h, Sym{Op: "unhold"})
 		case v < 19:
-			h = append(h, Sym{Op: "probe"})
+			switch rng.IntN(4) {
+			case 0:
+				h = append(h, Sym{Op: "ioprep"})
+			case 1:
+				h = append(h, Sym{Op: "ioadmit", Arg: "input"})
+			case 2:
+				h = append(h, Sym{Op: "ioadmit", Arg: "output"})
+			default:
+				h = append(h, Sym{Op: "probe"})
+			}
 		default:
 			if i > n/2 {
 				h = append(h, Sym{Op: "shutdown"})
@@ -201,6 +229,21 @@ func directed() [][]Sym {
 	// a stream that ended but has not reached its release section yet
 	out = append(out, []Sym{in("k"), o("k"), {Op: "holdin"}, {Op: "endin", Arg: "cancel"}, in("k"), o("k"), in("z"), {Op: "probe"}, {Op: "unhold"}, in("k"), {Op: "probe"}})
 	out = append(out, []Sym{in("k"), {Op: "holdin"}, {Op: "endin", Arg: "werr"}, in("k"), o("z"), {Op: "probe"}, {Op: "unhold"}})
+	// an /io request one half of which is refused while the other half is decided later, in another state
+	prep, ai, ao := Sym{Op: "ioprep"}, Sym{Op: "ioadmit", Arg: "input"}, Sym{Op: "ioadmit", Arg: "output"}
+	for _, base := range [][]Sym{{io}, {in("k"), o("k")}, {in("k")}, {o("k")}} {
+		for _, firstHalf := range []Sym{ai, ao} {
+			second := ao
+			if firstHalf.Arg == "output" {
+				second = ai
+			}
+			h := append(append([]Sym{}, base...), prep, firstHalf, Sym{Op: "probe"}, Sym{Op: "endboth", Arg: "infirst"}, second, Sym{Op: "probe"}, in("n"), o("n"), Sym{Op: "probe"})
+			out = append(out, h)
+		}
+	}
+	// half admitted first, sibling refused afterwards
+	out = append(out, []Sym{o("k"), prep, ai, ao, {Op: "probe"}, in("k"), {Op: "probe"}})
+	out = append(out, []Sym{in("k"), prep, ao, ai, {Op: "probe"}, o("k"), {Op: "probe"}})
 	// shutdown
 	out = append(out, []Sym{{Op: "shutdown"}, in("k"), o("k"), io, in(""), {Op: "probe"}})
 	out = append(out, []Sym{in("k"), o("k"), {Op: "shutdown"}, in("k"), o("z"), {Op: "probe"}, {Op: "endin", Arg: "cancel"}, in("k"), io})
